@@ -38,6 +38,40 @@ def budget_kwargs(solver_name):
     return {}
 
 
+SCIP_NODE_LIMIT = 3000
+HIGHS_NODE_LIMIT = 20000
+GUARD_STATS = {"mip_solves_bounded": 0}
+
+
+@contextlib.contextmanager
+def solver_guard():
+    """Installed around every simulated run: every MIP solve gets a *deterministic* work bound (branch
+    and bound node limit; never a wall-clock limit, which would not replay).  A solve that hits the
+    bound ends as 'optimal_inaccurate' / SolverError - outcomes on which no property makes a claim."""
+    import cvxpy
+    orig = cvxpy.Problem.solve
+
+    def solve(prob, *args, **kwargs):
+        try:
+            mip = prob.is_mixed_integer()
+        except Exception:
+            mip = False
+        if mip:
+            eff = kwargs.get("solver") or "SCIP"
+            if str(eff).upper() == "SCIP" and "scip_params" not in kwargs:
+                kwargs["scip_params"] = {"limits/nodes": SCIP_NODE_LIMIT}
+                GUARD_STATS["mip_solves_bounded"] += 1
+            elif str(eff).upper() == "SCIPY" and "scipy_options" not in kwargs:
+                kwargs["scipy_options"] = {"node_limit": HIGHS_NODE_LIMIT}
+                GUARD_STATS["mip_solves_bounded"] += 1
+        return orig(prob, *args, **kwargs)
+    cvxpy.Problem.solve = solve
+    try:
+        yield
+    finally:
+        cvxpy.Problem.solve = orig
+
+
 class SimSolver:
     """Wrapper over cvxpy.Problem.solve.  faults[k] decides what happens to the k-th solve call inside
     the context: None (real answer), 'raise', 'budget', 'status:<s>'.  `on_request(problem, kwargs)` is
